@@ -494,6 +494,11 @@ class HistoryGen:
                 evs.append({"op": "req", "req": ("WriteCmd", v["handle"], data), "hooks": {}})
             else:
                 L = len(v["value"])
+                if k == 3:
+                    # mixed queue: a handle that is not a characteristic value first, the (protected) value after it
+                    others = [r for r in self.rows if r["kind"] in ("KCccd", "KDecl", "KDesc", "KPrimary")]
+                    o = rng.choice(others)
+                    evs.append({"op": "req", "req": ("PrepareWrite", o["handle"], 0, rand_bytes(rng, rng.randrange(0, 3))), "hooks": {}})
                 evs.append({"op": "req", "req": ("PrepareWrite", v["handle"], rng.choice([0, 0, L, 1, L + 1]), data), "hooks": {}})
                 if rng.random() < 0.3:
                     evs.append({"op": "sec", "enc": rng.random() < 0.5, "auth": rng.random() < 0.5})
